@@ -1,7 +1,7 @@
 (* Evaluates the model on the cases recorded from the implementation and compares.
    The driver writes cases_<k>.v files that apply [run_cases] to a literal case list. *)
 From HbsLms Require Import Base.Bytes Model.Consts Model.Winternitz Model.Counter Model.KeyBlob.
-From HbsLms Require Import Model.Lmots Model.Lms Model.Derive Model.Codec Model.Hss Model.SignCore Model.Aux.
+From HbsLms Require Import Model.Lmots Model.Lms Model.Derive Model.Codec Model.Hss Model.SignCore Model.Aux Model.FastVerify.
 From HbsLms Require Import Gen.Generated Exec.Sha256 Spec.Rfc8554Ots Spec.Rfc8554.
 
 Local Open Scope N_scope.
@@ -34,6 +34,8 @@ Inductive case :=
 | CVerify (n : nat) (msg sig pk : bytes) (verdict : res unit)
 | CLifetime (n : nat) (blob : bytes) (life : res N)
 | CHash (n : nat) (data out : bytes)
+(* sign_mut: message before / after, signature, callback record, reported hash_iterations *)
+| CSignMut (n : nat) (blob msg_in msg_out pk : bytes) (accept : bool) (sig : res bytes) (calls : list (bytes * bool)) (iters : N)
 | CKeygenAux (n : nat) (variants : list (N * N)) (seed aux_in : bytes) (sk pk : res bytes) (aux_out : bytes)
 | CSignAux (n : nat) (blob msg aux_in : bytes) (accept : bool) (sig : res bytes) (calls : list (bytes * bool)) (aux_out : bytes)
 (* SigningKey::from_bytes(blob).try_sign(msg): signature and the key bytes afterwards *)
@@ -41,7 +43,8 @@ Inductive case :=
 | COtsPub (n : nat) (I : bytes) (q : N) (seed : bytes) (ty : N) (out : res bytes)
 | COtsSign (n : nat) (I : bytes) (q : N) (seed : bytes) (ty : N) (C msg : bytes) (out : res bytes).
 
-Definition K := K_src.
+Section WithK.
+Variable K : consts.
 
 Definition model_ots_param (n : nat) (ty : N) : res (list N) :=
   match ots_of_type K n ty with
@@ -143,6 +146,9 @@ Definition model_of (c : case) : shown :=
   | CVerify n msg sig pk _ => SVerdict (hss_verify K n (Hn n) msg sig pk)
   | CLifetime n blob _ => SNum (get_lifetime K n blob)
   | CHash n data _ => SBytes (Ok (hex (Hn n data)))
+  | CSignMut n blob msg_in msg_out _ acc _ _ _ =>
+    let '(r, cs, m) := sign_mut K n (Hn n) blob msg_in (skipn (length msg_out - n) msg_out) (fun _ => acc) in
+    SSign (hexr r) (map (fun c => (hex (fst c), snd c)) cs ++ [(hex m, true)])
   | CKeygenAux n vs seed aux _ _ _ =>
     match model_keygen_aux n vs seed aux with
     | Ok (s, p, a) => SSign (Ok (hex s)) [(hex p, true); (hex a, true)]
@@ -175,6 +181,13 @@ Definition run_case (c : case) : bool :=
   | CVerify n msg sig pk v => res_eqb (fun _ _ => true) (hss_verify K n (Hn n) msg sig pk) v
   | CLifetime n blob l => res_eqb N.eqb (get_lifetime K n blob) l
   | CHash n data out => bytes_eqb (Hn n data) out
+  | CSignMut n blob msg_in msg_out pk acc sig calls iters =>
+    let '(r, cs, m) := sign_mut K n (Hn n) blob msg_in (skipn (length msg_out - n) msg_out) (fun _ => acc) in
+    res_eqb bytes_eqb r sig && calls_eqb cs calls && bytes_eqb m msg_out
+    && match sig with
+       | Ok s => res_eqb N.eqb (sig_hash_iterations K n (Hn n) msg_out s pk) (Ok iters)
+       | _ => true
+       end
   | CKeygenAux n vs seed aux sk pk aux_out => keygen_aux_ok n vs seed aux sk pk aux_out
   | CSignAux n blob msg aux acc sig calls aux_out =>
     let '(r, cs, a) := sign_core_aux K n (Hn n) blob msg aux (fun _ => acc) in
@@ -213,3 +226,4 @@ Definition rfc_case (c : case) : bool :=
 
 Definition run_rfc (cs : list (N * case)) : list N :=
   map fst (filter (fun ic => negb (rfc_case (snd ic))) cs).
+End WithK.
